@@ -3,7 +3,9 @@ package mapping
 import (
 	"fmt"
 	"math/big"
+	"os"
 	"reflect"
+	"sort"
 	"strings"
 	"testing"
 	"time"
@@ -50,6 +52,11 @@ func kinds() []kindSpec {
 		{"[]int8", reflect.TypeOf([]int8{}), "other", "", ""},
 		{"[]string", reflect.TypeOf([]string{}), "other", "", ""},
 		{"[][]int", reflect.TypeOf([][]int{}), "other", "", ""},
+		{"[]*int", reflect.TypeOf([]*int{}), "other", "", ""},
+		{"[]*string", reflect.TypeOf([]*string{}), "other", "", ""},
+		{"[]string/default-num", reflect.TypeOf([]string{}), "other", "[1,2]", `["1","2"]`},
+		{"map[int]string", reflect.TypeOf(map[int]string{}), "other", "", ""},
+		{"map[string]any", reflect.TypeOf(map[string]any{}), "other", "", ""},
 		{"map[string]int", reflect.TypeOf(map[string]int{}), "other", "", ""},
 		{"map[string]uint8", reflect.TypeOf(map[string]uint8{}), "other", "", ""},
 		{"map[string]string", reflect.TypeOf(map[string]string{}), "other", "", ""},
@@ -68,6 +75,8 @@ var docValues = []string{
 	"[]", "[1]", "[1,2]", "[300]", `["a"]`, `["a",1]`, "[[1]]", "[[1],[2,3]]", "[1.5]", "[null]", "[[]]", `[[1,"x"]]`,
 	"{}", `{"a":1}`, `{"a":"x"}`, `{"a":300}`, `{"a":[1]}`, `{"a":[1,2]}`, `{"a":1.5}`, `{"a":{"a":1}}`, `{"a":null}`, `{"b":1}`,
 	`[{"a":1}]`, `[{"a":"x"}]`, `[{}]`, `[{"a":1},{"a":2}]`, `{"k":{"a":1}}`, `{"k":{"a":"x"}}`, `{"k":1}`,
+	// containers written inside a string (the form-value style), numeric keys, not-a-numbers
+	`"[1,2]"`, `"[1,null]"`, `"[]"`, `"[\"a\"]"`, `"[300]"`, `{"1":"x"}`, `{"1":1}`, `"NaN"`, `"Inf"`, `"-Inf"`,
 }
 
 // generatedDocs: every JSON value of nesting depth <= 2 over a small atom set (thorough tier)
@@ -97,6 +106,20 @@ func generatedDocs() []string {
 		}
 	}
 	return out
+}
+
+// envName: one variable per default literal, set by setEnvs (proc.Env caches what it reads).
+func envName(k kindSpec) string {
+	return "VERIF_ENV_" + strings.NewReplacer(".", "_").Replace(k.def)
+}
+
+func setEnvs() {
+	for _, k := range kinds() {
+		if k.cat != "other" {
+			os.Setenv(envName(k), k.def)
+		}
+	}
+	os.Unsetenv("VERIF_ENV_UNSET")
 }
 
 type tagSpec struct {
@@ -131,6 +154,13 @@ func tagSpecs() []tagSpec {
 		{"range[:5]", func(k kindSpec) (string, bool) { return ",range=[:5]", num(k) }},
 		{"range+default", func(k kindSpec) (string, bool) { return ",range=[1:5],default=3", k.cat == "int" || k.cat == "uint" }},
 		{"string", func(k kindSpec) (string, bool) { return ",string", num(k) }},
+		{"string+options", func(k kindSpec) (string, bool) { return ",string,options=1|3", k.cat == "int" || k.cat == "uint" }},
+		{"string+range", func(k kindSpec) (string, bool) { return ",string,range=[1:5]", num(k) }},
+		// the value comes from the environment when the variable is set (and from the document
+		// when it is not)
+		{"env", func(k kindSpec) (string, bool) { return ",env=" + envName(k), k.cat != "other" }},
+		{"optional+env", func(k kindSpec) (string, bool) { return ",optional,env=" + envName(k), k.cat != "other" }},
+		{"env-unset", func(k kindSpec) (string, bool) { return ",env=VERIF_ENV_UNSET", k.cat != "other" }},
 	}
 }
 
@@ -175,6 +205,7 @@ func TestVerifUnmarshalMatrix(t *testing.T) {
 			return UnmarshalJsonMap(d.(map[string]any), v)
 		}},
 	}
+	setEnvs()
 	c := vrt.NewCases("unmarshal/single-field-matrix")
 	n := 0
 	for _, k := range kinds() {
@@ -193,9 +224,8 @@ func TestVerifUnmarshalMatrix(t *testing.T) {
 				docs = append(append([]string{}, docValues...), generatedDocs()...)
 			}
 			for _, dv := range docs {
-				if ts.name == "string" && !strings.HasPrefix(dv, `"`) && dv != "<absent>" {
-					continue // ,string fields take their number inside a JSON string
-				}
+				// (,string fields take their number inside a JSON string; a bare number is checked
+				// for panic-freedom and, if accepted, for exactness like anything else)
 				doc := "{}"
 				if dv != "<absent>" {
 					doc = `{"f":` + dv + `}`
@@ -269,6 +299,12 @@ func scramble(v reflect.Value) {
 			scramble(v.Index(i))
 		}
 	case reflect.Map:
+		if !v.IsNil() && v.Type().Key().Kind() == reflect.String {
+			// the caller adds an entry of its own to the map it was handed
+			e := reflect.New(v.Type().Elem()).Elem()
+			scramble(e)
+			v.SetMapIndex(reflect.ValueOf("scribbled").Convert(v.Type().Key()), e)
+		}
 		for _, k := range v.MapKeys() {
 			e := reflect.New(v.Type().Elem()).Elem()
 			e.Set(v.MapIndex(k))
@@ -314,6 +350,27 @@ func derefPrint(v reflect.Value) string {
 		}
 		v = v.Elem()
 	}
+	switch v.Kind() {
+	case reflect.Slice:
+		// element-wise, so that pointer elements print what they point to, not their address
+		parts := make([]string, v.Len())
+		for i := range parts {
+			parts[i] = derefPrint(v.Index(i))
+		}
+		return "[" + strings.Join(parts, " ") + "]"
+	case reflect.Map:
+		var parts []string
+		for _, k := range v.MapKeys() {
+			parts = append(parts, fmt.Sprintf("%v:%s", k.Interface(), derefPrint(v.MapIndex(k))))
+		}
+		sort.Strings(parts)
+		return "map[" + strings.Join(parts, " ") + "]"
+	case reflect.Interface:
+		if v.IsNil() {
+			return "<nil>"
+		}
+		return derefPrint(v.Elem())
+	}
 	return fmt.Sprintf("%+v", v.Interface())
 }
 
@@ -341,6 +398,26 @@ func classifyDoc(dv string) string {
 
 func checkOne(c *vrt.Cases, in string, k kindSpec, tag, dv string, fv reflect.Value, err error) {
 	cls := k.name + "/" + classifyDoc(dv)
+	if strings.Contains(tag, "env=") && !strings.Contains(tag, "VERIF_ENV_UNSET") {
+		// the variable is set to the kind's default literal: if the call succeeds the field
+		// holds exactly that value (whatever the document says)
+		if err == nil {
+			def, _ := decodeDoc(k.defJ)
+			if ok, why := docEquals(fv, def, "json"); !ok {
+				c.Violation(in, "env/"+cls, "accepted without error but the field does not hold the environment value "+k.def+": "+why)
+			}
+		}
+		return
+	}
+	if dv == `"NaN"` || dv == `"Inf"` || dv == `"-Inf"` {
+		// not numbers: never inside a declared range; otherwise only panic-freedom is claimed
+		if err == nil && strings.Contains(tag, "range=") && (fv.Kind() == reflect.Float32 || fv.Kind() == reflect.Float64) {
+			c.Violation(in, "range/"+cls, fmt.Sprintf("value %s is outside the declared range but was accepted (field = %v)", dv, derefPrint(fv)))
+		}
+		if err == nil && (fv.Kind() == reflect.Float32 || fv.Kind() == reflect.Float64) {
+			return
+		}
+	}
 	optional := strings.Contains(tag, "optional")
 	hasDefault := strings.Contains(tag, "default=")
 	if dv == "<absent>" {
@@ -407,4 +484,90 @@ func checkOne(c *vrt.Cases, in string, k kindSpec, tag, dv string, fv reflect.Va
 	if ok, why := docEquals(fv, doc, "json"); !ok {
 		c.Violation(in, "exact/"+cls, "accepted without error but "+why)
 	}
+}
+
+// What a declared default yields does not depend on which other structs were unmarshalled
+// before in the same process: slice fields of different element types that spell their
+// default with the same text, in every order (the process-wide caches are emptied between
+// the orders; a differential oracle - each result must equal the one obtained on its own).
+func TestVerifDefaultIndependence(t *testing.T) {
+	defer vrt.WriteReport()
+	if !vrt.Shard(0) {
+		return
+	}
+	c := vrt.NewCases("unmarshal/default-independence")
+	type shape struct {
+		name string
+		mk   func() any
+	}
+	groups := map[string][]shape{
+		"[1,2]": {
+			{"[]int", func() any { return &struct{ F []int `json:"f,default=[1,2]"` }{} }},
+			{"[]string", func() any { return &struct{ F []string `json:"f,default=[1,2]"` }{} }},
+			{"[]float64", func() any { return &struct{ F []float64 `json:"f,default=[1,2]"` }{} }},
+			{"[]int8", func() any { return &struct{ F []int8 `json:"f,default=[1,2]"` }{} }},
+			{"[]*int", func() any { return &struct{ F []*int `json:"f,default=[1,2]"` }{} }},
+		},
+		"[true,false]": {
+			{"[]bool", func() any { return &struct{ F []bool `json:"f,default=[true,false]"` }{} }},
+			{"[]string", func() any { return &struct{ F []string `json:"f,default=[true,false]"` }{} }},
+		},
+		"[a,b]": {
+			{"[]string", func() any { return &struct{ F []string `json:"f,default=[a,b]"` }{} }},
+			{"[]int", func() any { return &struct{ F []int `json:"f,default=[a,b]"` }{} }},
+		},
+	}
+	reset := func() {
+		defaultCacheLock.Lock()
+		defaultCache = make(map[string]any)
+		defaultCacheLock.Unlock()
+	}
+	run := func(s shape) string {
+		v := s.mk()
+		var err error
+		var pan any
+		func() {
+			defer func() { pan = recover() }()
+			err = UnmarshalJsonBytes([]byte(`{}`), v)
+		}()
+		if pan != nil {
+			return fmt.Sprintf("panic:%v", pan)
+		}
+		return fmt.Sprintf("err=%v|%s", err != nil, derefPrint(reflect.ValueOf(v).Elem().Field(0)))
+	}
+	var texts []string
+	for text := range groups {
+		texts = append(texts, text)
+	}
+	sort.Strings(texts)
+	for _, text := range texts {
+		g := groups[text]
+		alone := map[string]string{}
+		for _, s := range g {
+			reset()
+			alone[s.name] = run(s)
+			if strings.HasPrefix(alone[s.name], "panic") {
+				c.Violation(text+" "+s.name, "panic", alone[s.name])
+			}
+		}
+		for _, first := range g {
+			for _, second := range g {
+				if first.name == second.name {
+					continue
+				}
+				reset()
+				run(first)
+				got := run(second)
+				c.Eval(fmt.Sprintf("default=%s first=%s second=%s -> %s", text, first.name, second.name, got), func() any {
+					return map[string]any{"default": text, "first": first.name, "second": second.name, "second_result": got, "second_alone": alone[second.name]}
+				})
+				if got != alone[second.name] {
+					c.Violation(fmt.Sprintf("default=%s first=%s second=%s", text, first.name, second.name), "history dependence",
+						fmt.Sprintf("a %s field with default=%s gives %s on its own, but %s after a %s field with the same default text was unmarshalled", second.name, text, alone[second.name], got, first.name))
+				}
+			}
+		}
+	}
+	reset()
+	c.Done()
 }
